@@ -29,6 +29,7 @@ PLAN = {
     ],
     "C06": [
         part("api", "TestC06Exhaustive", (1, 1), (16, 16)),
+        part("api", "TestC06Large", (150, 3000), (2, 8)),
         part("cli", "TestC06CLI", (30, 800), (8, 16), steps=30),
     ],
     "C07": [part("cli", "TestC07", (40, 900), (16, 16), steps=25)],
